@@ -95,7 +95,13 @@ func runC02(r *Report) {
 	for _, pp := range progs {
 		p := pp.P
 		writes := respWrites(p)
-		if p.funcDecl("", "writeJSON") != nil {
+		usesJSON := false
+		for _, w := range writes {
+			if w.Body == "json" {
+				usesJSON = true
+			}
+		}
+		if usesJSON {
 			why := writeJSONShape(p)
 			r.Check(why == "", "C02/write-json", p.Name+":writeJSON", "", why)
 		}
